@@ -27,6 +27,30 @@ def run(ck, build):
     kdflib.check_prng(ob, mod, "H/N0")
     from . import hashlib
     hashlib.premises(ck, mod, "R-C15-HASH")
+    # premise: where the automatic reseeds fall and what limit a set_reseed_limit request leaves behind (all rules of C16, re-run on the same IR)
+    ck.rule("R-C15-RESEED", "premise: the limit a set_reseed_limit request stores is the documented clamp/rounding for every request, every write to the counter and limit fields is one of the "
+            "documented ones, and generate tests the counter against the limit before every block (all rules of C16 re-run on the same IR): the clause 'where automatic reseeds fall'")
+    from . import C16
+
+    class _AsPremise:
+        def __init__(self, ck):
+            self._ck = ck
+
+        def ob(self, cond, rule, *a, **k):
+            return self._ck.ob(cond, "R-C15-RESEED", *a, **k)
+
+        def ok(self, rule, *a, **k):
+            self._ck.ok("R-C15-RESEED", *a, **k)
+
+        def bad(self, rule, *a, **k):
+            self._ck.bad("R-C15-RESEED", *a, **k)
+
+        def __getattr__(self, n):
+            return getattr(self._ck, n)
+    C16.add_udiv_to_fin()
+    pk = _AsPremise(ck)
+    _nc, _nl, offs_, incs_ = C16.census(pk, mod, "H/N0")
+    C16.guard_rule(pk, mod, offs_, incs_, "H/N0")
     ck.floor("R-C15", "obligations over entry points / block-length classes", len(ck.obligations), 400)
     fx = Module(build.fixture_facts(os.path.join(os.path.dirname(os.path.dirname(os.path.dirname(__file__))), "fixtures", "c15_bad.c")))
     sub = type(ck)("C15-fixture")
